@@ -36,7 +36,93 @@ fn gen_wide(r: &mut Rng) -> Ledger {
 
 pub fn run(ctx: &mut Ctx) {
     let prop = "C16";
-    ctx.ev.rule = "wide ledgers (6–13 securities, half of them with tickers that are prefixes of one another, about half fully sold, 2–5 shared disposal dates spread over several tax years, shuffled lines) the standard generated ledgers, and order-sensitive-sum ledgers (one disposal identified with 3–6 later purchases of very different sizes behind a SPLIT whose ratio divides none of them, a second disposal of exactly the rest of the holding): (a) calculate() run 4 times (8 for the sum shape) in-process (each HashMap draws a fresh seed) must give equal reports, and a refused ledger the same refusal text 6 times; tax years ascending, disposals by (date, ticker), holdings by ticker; (a′) the same for the single-year report of each of up to two years with ≥ 2 disposals; (b) the real binary run 3 times as separate processes for `report --format plain`, `report --format json`, `report --year Y --format json` and `parse` must give byte-identical stdout; echoed transactions in the text report by (date, ticker); whole report compared with the Lean model (which has no hash maps; not for the sum shape, whose 28-digit rounding exact rationals do not reproduce). Non-trivial = ledgers with ≥ 6 securities and ≥ 2 fully sold; distinct by ledger text.".into();
+    ctx.ev.rule = "wide ledgers (6–13 securities, half of them with tickers that are prefixes of one another, about half fully sold, 2–5 shared disposal dates spread over several tax years, shuffled lines) the standard generated ledgers, and order-sensitive-sum ledgers (one disposal identified with 3–6 later purchases of very different sizes behind a SPLIT whose ratio divides none of them, a second disposal of exactly the rest of the holding): (a) calculate() run 4 times (8 for the sum shape) in-process (each HashMap draws a fresh seed) must give equal reports, and a refused ledger the same refusal text 6 times; tax years ascending, disposals by (date, ticker), holdings by ticker; (a′) the same for the single-year report of each of up to two years with ≥ 2 disposals; (b) the real binary run 3 times as separate processes for `report --format plain`, `report --format json`, `report --year Y --format json` and `parse` must give byte-identical stdout; echoed transactions in the text report by (date, ticker); (d) `report --year` with a ./config.toml that spells one year several ways, 8 separate processes; (c) the Schwab converter: generated exports, and dividends with several withholding rows on the same day and up to three days later, converted 6 times in-process and by 3 separate processes — same text apart from the `# Converted:` line; whole report compared with the Lean model (which has no hash maps; not for the sum shape, whose 28-digit rounding exact rationals do not reproduce). Non-trivial = ledgers with ≥ 6 securities and ≥ 2 fully sold; distinct by ledger text.".into();
+
+    // the exemption configuration: an override file may spell one year in several ways ("2024", "02024",
+    // "+2024" all read as the year 2024); whichever entry counts, it must be the same one in every process
+    if cli::available() {
+        let mut rr = Rng::new(ctx.seed ^ 0xC16F);
+        for i in 0..ctx.n(3, 60) {
+            let sc = cli::Scratch::new();
+            sc.write("in.cgt", "2024-05-01 BUY AAA 10 @ 1\n2024-06-01 SELL AAA 5 @ 2\n");
+            let mut spellings = vec!["2024".to_string(), "02024".to_string(), "+2024".to_string(), "002024".to_string(), "0002024".to_string()];
+            rr.shuffle(&mut spellings);
+            spellings.truncate(2 + rr.below(4) as usize);
+            let body: String = spellings.iter().enumerate().map(|(k, sp)| format!("\"{sp}\" = {}\n", 1000 * (k as i64 + 1) + i as i64)).collect();
+            sc.write("config.toml", &format!("[exemptions]\n{body}"));
+            ctx.ev.evaluations += 1;
+            ctx.ev.count("config-spelling-cases");
+            let args = ["report", "in.cgt", "--year", "2024", "--format", "json"];
+            let a = cli::run(&sc, &args);
+            for _ in 0..7 {
+                let b = cli::run(&sc, &args);
+                ctx.ev.count("cli-runs");
+                if a.stdout != b.stdout || a.code != b.code {
+                    let ex = |o: &cli::CliOut| serde_json::from_slice::<serde_json::Value>(&o.stdout).ok().map(|v| v["tax_years"][0]["exempt_amount"].to_string()).unwrap_or_else(|| format!("exit {:?}", o.code));
+                    ctx.ev.violation("oracle", format!("`cgt-tool {}` with one ./config.toml prints different reports in different processes (exemption {} vs {})", args.join(" "), ex(&a), ex(&b)), format!("# property C16\n# oracle: process non-determinism; ./config.toml is:\n# [exemptions]\n{}# ledger:\n2024-05-01 BUY AAA 10 @ 1\n2024-06-01 SELL AAA 5 @ 2\n", body.lines().map(|l| format!("# {l}\n")).collect::<String>()));
+                    break;
+                }
+            }
+        }
+    }
+    // the converter: the same export converted 6 times in-process (fresh hash maps each time) and by 3
+    // separate processes must give the same text, apart from the `# Converted:` time stamp line.
+    // Exports: the generated ones of C18, plus dividends whose withholding rows are dated on the same day,
+    // one to three days later, or both, several per symbol with different amounts, in shuffled row order
+    {
+        use cgt_converter::{BrokerConverter, schwab::{SchwabConverter, SchwabInput}};
+        let mut rr = Rng::new(ctx.seed ^ 0xC16C);
+        let strip = |t: &str| -> String { t.lines().filter(|l| !l.starts_with("# Converted:")).collect::<Vec<_>>().join("\n") };
+        let mut cli_left: u32 = if ctx.tier == Tier::Quick { 4 } else { 40 };
+        for i in 0..ctx.n(60, 3000) {
+            let jt = if i % 2 == 0 { super::c18::gen_export(&mut rr) } else {
+                let mut rows: Vec<serde_json::Value> = Vec::new();
+                let us = |d: chrono::NaiveDate| format!("{:02}/{:02}/{}", chrono::Datelike::month(&d), chrono::Datelike::day(&d), chrono::Datelike::year(&d));
+                for si in 0..(1 + rr.below(2)) {
+                    let sym = ["AAA", "BBB"][si as usize];
+                    let d0 = ledger::d(2021 + rr.below(3) as i32, 1 + rr.below(12) as u32, 1 + rr.below(25) as u32);
+                    for k in 0..(1 + rr.below(3)) {
+                        let d = d0 + Duration::days(k as i64 * rr.range(0, 3));
+                        rows.push(json!({"Date": us(d), "Action": *rr.pick(&["Cash Dividend", "Qualified Dividend"]), "Symbol": sym, "Description": "DIV", "Quantity": "", "Price": "", "Fees & Comm": "", "Amount": format!("${}.00", rr.range(5, 500))}));
+                    }
+                    for _ in 0..(2 + rr.below(3)) {
+                        let d = d0 + Duration::days(rr.range(0, 4));
+                        rows.push(json!({"Date": us(d), "Action": *rr.pick(&["NRA Tax Adj", "NRA Withholding"]), "Symbol": sym, "Description": "TAX", "Quantity": "", "Price": "", "Fees & Comm": "", "Amount": format!("-${}.{:02}", rr.range(1, 60), rr.below(100))}));
+                    }
+                }
+                rr.shuffle(&mut rows);
+                json!({"BrokerageTransactions": rows}).to_string()
+            };
+            ctx.ev.evaluations += 1;
+            ctx.ev.count("converter-exports");
+            let input = SchwabInput { transactions_json: jt.clone(), awards_json: None };
+            let run1 = |inp: &SchwabInput| std::panic::catch_unwind(|| SchwabConverter::new().convert(inp).map(|o| o.cgt_content).map_err(|e| e.to_string()));
+            let Ok(first) = run1(&input) else { continue };
+            let a = match &first { Ok(t) => strip(t), Err(e) => format!("error: {e}") };
+            for k in 0..5 {
+                let b = match run1(&input) { Ok(Ok(t)) => strip(&t), Ok(Err(e)) => format!("error: {e}"), Err(_) => "panic".into() };
+                if a != b {
+                    let (la, lb) = a.lines().zip(b.lines()).find(|(x, y)| x != y).map(|(x, y)| (x.to_string(), y.to_string())).unwrap_or_default();
+                    ctx.ev.violation("oracle", format!("run {} of the converter on the same export gives different text: `{la}` vs `{lb}`", k + 2), format!("# property C16\n# oracle: convert schwab, repeated\n{jt}\n"));
+                    break;
+                }
+            }
+            if cli_left > 0 && i % 2 == 1 && cli::available() {
+                cli_left -= 1;
+                let sc = cli::Scratch::new();
+                sc.write("export.json", &jt);
+                let o1 = cli::run(&sc, &["convert", "schwab", "export.json"]);
+                ctx.ev.count("cli-runs");
+                for _ in 0..2 {
+                    let o2 = cli::run(&sc, &["convert", "schwab", "export.json"]);
+                    if o1.code != o2.code || strip(&String::from_utf8_lossy(&o1.stdout)) != strip(&String::from_utf8_lossy(&o2.stdout)) {
+                        ctx.ev.violation("oracle", "`cgt-tool convert schwab` prints different text in two processes (time stamp line aside)".into(), format!("# property C16\n# oracle: convert schwab, separate processes\n{jt}\n"));
+                        break;
+                    }
+                }
+            }
+        }
+    }
     let ex = run_impl::wide_exemptions();
     let mut r = Rng::new(ctx.seed ^ 0xC16);
     let cfg = GenCfg::standard();
